@@ -159,6 +159,10 @@ pub fn load(dir: &Path, tier: Tier) -> Result<Catalogue, String> {
         ("", "%r(x)", ""),
         ("", "%r ", "x"),
         ("", "&a.", ""),
+        ("data &&lib", "&i", "..final;"),
+        ("title \"&&path", "&i", "..csv\";"),
+        ("%m(ds=&&&&a", "&i", "...x)"),
+        ("&&a", "&b.", "..c"),
         ("", "a:", ""),
         ("", "%a:", ""),
         ("", "%do;%end;", ""),
@@ -391,6 +395,52 @@ pub fn load(dir: &Path, tier: Tier) -> Result<Catalogue, String> {
 
     // medium: error- / token- / literal-dense sources of a few KB (still used by the simulator)
     let mut n_medium = 0;
+    {
+        // many DISTINCT escaped literals, each occurring twice (de-duplication, interning)
+        let mut t = String::new();
+        for round in 0..2 {
+            for i in 0..150 {
+                let _ = round;
+                t.push_str(&format!("v='O''Brien #{i}'; %let a{i}=%str(it%'s no. {i}); %put \"say \"\"{i}\"\" twice\";\n"));
+            }
+        }
+        if push(&mut sources, "M90".to_string(), t) {
+            n_medium += 1;
+        }
+        // very deep parenthesis nesting in a macro call argument value, a %let value, a macro definition default
+        for (k, (head, tail)) in [("%m(a=", ", b=1);"), ("%let u=%upcase(", ");"), ("%macro m(p=", ""), ("x=", ";"), ("%eval(", ")")].iter().enumerate() {
+            for depth in [300usize, 3000] {
+                let t = format!("{head}{}x{}{tail}", "(".repeat(depth), if tail.is_empty() { String::new() } else { ")".repeat(depth) });
+                if push(&mut sources, format!("M8{k}d{depth}"), t) {
+                    n_medium += 1;
+                }
+            }
+        }
+        // a 200-line program and close variants of it (same line count, small local differences)
+        let lines: Vec<String> = (0..200)
+            .map(|i| match i % 5 {
+                0 => format!("data step{i}; set lib.t{i};"),
+                1 => format!("  x{i} = y + {i}; /* c{i} */"),
+                2 => format!("  if x{i} > {} then z = 'v{i}';", i * 7),
+                3 => "run;".to_string(),
+                _ => format!("%put note {i};"),
+            })
+            .collect();
+        let join = |v: &Vec<String>| v.join("\n") + "\n";
+        let mut v1 = lines.clone();
+        v1.swap(51, 52);
+        let mut v2 = lines.clone();
+        v2[101] = "  x101 = y + 101;".to_string();
+        v2[102] = format!("/* c101 */ {}", lines[102]);
+        let mut v3 = lines.clone();
+        v3[150] = "data step150;".to_string();
+        v3[151] = format!(" set lib.t150; {}", lines[151].trim_start());
+        for (k, v) in [&lines, &v1, &v2, &v3].iter().enumerate() {
+            if push(&mut sources, format!("M7{k}"), join(v)) {
+                n_medium += 1;
+            }
+        }
+    }
     for (k, (head, unit, reps, tail)) in [
         ("", "%let ;", 1500usize, ""),
         ("", "%m(a", 1200, ""),
@@ -884,7 +934,7 @@ impl Gen<'_> {
                 "{}4;\n{}\n{}",
                 self.pick(&["datalines", "cards", "lines"]),
                 self.pick(&["ab;c", "é;ü;;;", "", "1\n2"]),
-                self.pick(&[";;;;", ";;;;", ";;;", ";;", ";", "", ";;;;é", ";é", ";;;é", ";;;; y=2;"])
+                self.pick(&[";;;;", ";;;;", ";;;", ";;", ";", "", ";;;;é", ";é", ";;;é", ";;;; y=2;", ";\n", ";;\n", ";;;\n", ";;;;\n"])
             ),
             21 => format!("* comment {};", self.pick(NAMES)),
             22 => format!("/* c {} */", self.pick(NAMES)),
